@@ -319,7 +319,13 @@ func (d *db) GetSequenceUpdates(prefixKey string) (SequenceWaiter, error) {
 		err = multierr.Append(err, sw.Close())
 		return nil, err
 	} else if it.Valid() {
-		sw.och.WriteLast(it.Key())
+		// The key read from the committed state is only the initial value: if a write
+		// that is in progress has already announced a newer key of the sequence, that
+		// one must not be replaced by the older one
+		select {
+		case sw.och.Ch() <- it.Key():
+		default:
+		}
 	}
 
 	_ = it.Close()
